@@ -192,6 +192,7 @@ type In struct {
 	Orig      []byte   // the document before the fault (clearsigned, or plain text for Case unsigned)
 	Fault     *Fault   // nil: untampered
 	Want      []Para   // the paragraphs of the signed text, from the model
+	Hist      *Hist    `json:",omitempty"` // Case history: one keyring variable passed by the same pointer across several reads
 }
 
 const armourPrefix = "-----BEGIN PGP "
@@ -203,6 +204,7 @@ type obs struct {
 	delivered []Para
 	signer    string // fingerprint, "" = nil
 	panicked  string
+	signerEnt *openpgp.Entity // the entity Signer() returned (history scenario: must be an element of the keyring as it is at that call)
 }
 
 func (o obs) success() bool { return o.ctorErr == "" && o.readErr == "" && o.panicked == "" }
@@ -275,15 +277,20 @@ func observe(in In, doc []byte) (o obs) {
 		o.panicked = "harness: keyring unreadable: " + err.Error()
 		return
 	}
+	return observeRing(in.Entry, doc, ring)
+}
+
+// observeRing runs the real code on doc with the given keyring pointer.
+func observeRing(entry string, doc []byte, ring *openpgp.EntityList) (o obs) {
 	p, msg := mc.Guard(func() {
-		switch in.Entry {
+		switch entry {
 		case "decoder":
 			dec, err := control.NewDecoder(bytes.NewReader(doc), ring)
 			if err != nil {
 				o.ctorErr = err.Error()
 				return
 			}
-			o.signer = gen.CSFingerprint(dec.Signer())
+			o.signer, o.signerEnt = gen.CSFingerprint(dec.Signer()), dec.Signer()
 			var out []wrap
 			err = dec.Decode(&out)
 			for _, w := range out {
@@ -301,7 +308,7 @@ func observe(in In, doc []byte) (o obs) {
 				o.ctorErr = err.Error()
 				return
 			}
-			o.signer = gen.CSFingerprint(pr.Signer())
+			o.signer, o.signerEnt = gen.CSFingerprint(pr.Signer()), pr.Signer()
 			for i := 0; ; i++ {
 				para, err := pr.Next()
 				if err == io.EOF {
@@ -402,6 +409,9 @@ type verdict struct {
 
 // check is THE oracle, a plain function of the input; used by Run and Replay.
 func check(scen string, in In) verdict {
+	if in.Case == "history" {
+		return checkHist(scen, in)
+	}
 	if !in.Fault.valid(len(in.Orig)) {
 		return verdict{class: "invalid-input"}
 	}
@@ -795,6 +805,7 @@ func Run(r *mc.Run) {
 
 	// ---- scenario 3: tampering, complete for single faults, + splices
 	auditKeyrings(r, signed, K1, K2, entries)
+	keyringHistories(r, docs[0], K1, K2, entries)
 	subs := subsQuick
 	tamperRings := []ringSpec{{kind: "list", keys: []*key{K1}}}
 	if !r.Quick() {
